@@ -143,7 +143,15 @@ type Server struct {
 	accts   map[string]*Account
 	handler func(*Session)
 	closed  bool
+	refuse  int // the next `refuse` shell/subsystem requests are answered with failure
 	wg      sync.WaitGroup
+}
+
+// RefuseNext makes the server refuse the next n shell / subsystem requests.
+func (s *Server) RefuseNext(n int) {
+	s.mu.Lock()
+	s.refuse = n
+	s.mu.Unlock()
 }
 
 // NewServer listens on 127.0.0.1:0 with a fresh ed25519 host key.
@@ -460,7 +468,16 @@ func (s *Server) serveSession(id int64, user string, nc net.Conn, ch ssh.Channel
 				}
 				s.mu.Lock()
 				h := s.handler
+				refuse := s.refuse > 0
+				if refuse {
+					s.refuse--
+				}
 				s.mu.Unlock()
+				if refuse { // the device refuses this shell / subsystem request
+					s.log(Event{Conn: id, Kind: r.Type, User: user, Info: sess.Subsystem + " (refused on request)"})
+					r.Reply(false, nil)
+					continue
+				}
 				s.log(Event{Conn: id, Kind: r.Type, User: user, Info: sess.Subsystem})
 				if h == nil {
 					r.Reply(false, nil)
